@@ -15,13 +15,13 @@ import (
 )
 
 type CoreNet struct {
-	w      *World
-	nodes  []*CNode
-	byNum  map[int]*CNode
-	steps  int
-	errs   int
-	blocks int
-	maxEv  int
+	w       *World
+	nodes   []*CNode
+	byNum   map[int]*CNode
+	steps   int
+	errs    int
+	blocks  int
+	maxEv   int
 	mangle  float64
 	mangled int
 }
